@@ -142,6 +142,24 @@ def run(chk, prog):
         want = {frozenset([mk_proj(imp, 1)]): 1, frozenset([("call", ("attr", part, "get_score"), (), ())]): -1, frozenset([wt]): 1}
         chk.require(form == want, "WEIGHT-INF", f"ChangeTarget.{meth}._reweight", "reweight by the ratio of new to old target densities", derived=show_lin(form)[:300],
                     expected="+new_target.importance(key, unconstrained latents of the old target)[1] - particle.get_score() + old weight", where=where)
+    # keys: the previous algorithm's run and the reweighting step must not share a key.  split(key, n)[i] == fold_in(key, i) (partitionable threefry) and trace
+    # sites use fold_in(key, i): handing `key` to prev.run_* and then splitting the same `key` gives the new target's site i the key the old target's site i used
+    # (a latent the new target adds is drawn EQUAL to an old one; the evidence estimate is biased)
+    for meth, runner in (("run_smc", "run_smc"), ("run_csmc", "run_csmc"), ("run_csmc_for_normalizing_constant", "run_csmc")):
+        evk = Evaluator(prog)
+        rk = evk.eval_fn(CT.methods[meth], CT.module, CT)
+        full = ("tuple", tuple([rk.ret] + list(rk.env.get("__effects__", []))))
+        prev_runs = [x for x in mcalls(full, runner) if x[1][1] == ("attr", SELF, "prev")]
+        splits_n = [x for x in subterms(full) if is_call(x, "split") and len(x[2]) == 2]
+        okk = len(prev_runs) >= 1 and len(splits_n) >= 1
+        derk = "prev run / split not found"
+        if okk:
+            k_prev = prev_runs[0][2][0]
+            k_par = splits_n[0][2][0]
+            derk = f"prev.{runner} receives {show(k_prev)[:60]}; the reweighting keys are split from {show(k_par)[:60]}"
+            okk = k_prev != k_par and not mentions(k_par, k_prev) and not mentions(k_prev, k_par)
+        chk.require(bool(okk), "KEY-LINEAR", f"ChangeTarget.{meth}/keys", "key shared by the previous algorithm's run and the reweighting step", derived=derk,
+                    expected="key, sub_key = split(key): sub_key to self.prev.run_*, the reweighting keys split from key", where=f"{CT.module.rel}:{CT.methods[meth].lineno}")
     ev = Evaluator(prog)
     r = ev.eval_fn(CT.methods["run_csmc_for_normalizing_constant"], CT.module, CT)
     t = r.ret
